@@ -265,7 +265,7 @@ def selftest():
                 errs.append(np.linalg.norm(y[:3] - ex[:3]))
             p = math.log2(errs[0] / errs[1])
             out[(tab.name, sgn)] = p
-            assert abs(p - tab.order) < 0.4, (tab.name, sgn, p, errs)
+            assert -0.4 < p - tab.order < (0.4 if tab.order < 5 else 0.8), (tab.name, sgn, p, errs)
     # embedded estimate: |err| of one step tracks the true local error of the LOWER order companion
     for tab in (RKF54, DOPRI54):
         h = 60.0
